@@ -312,9 +312,32 @@ def main() -> int:
     cov = linecov.LineCov(C.REPO)
     if os.environ.get("VERIF_LINECOV", "1") != "0":
         cov.start()
-    cases = load_corpus(P)
-    n_corpus = len(cases)
-    cases.extend(P.generate(rng, budget(P, tier), tier))
+    try:
+        cases = load_corpus(P)
+        n_corpus = len(cases)
+        cases.extend(P.generate(rng, budget(P, tier), tier))
+    except Exception as e:  # noqa: BLE001
+        # a generator that builds its scenarios with the package's own factories can be brought down by the implementation
+        # itself: when the traceback ends inside the tree under test that is a behaviour of the code (reported with the
+        # call as replay), otherwise a bug of the harness (exit 2)
+        import traceback as _tb
+        frames = _tb.extract_tb(e.__traceback__)
+        root = os.path.realpath(C.REPO) + os.sep
+        inside = [f for f in frames if os.path.realpath(f.filename).startswith(root)]
+        _tb.print_exc()
+        if not inside:
+            print("ERROR: the case generator failed outside the implementation")
+            return 2
+        last_h = [f for f in frames if not os.path.realpath(f.filename).startswith(root)][-1]
+        path = C.write_replay(pid, {
+            "property": pid, "case": None,
+            "what": {"kind": "implementation_exception_while_building_cases", "detail": f"{type(e).__name__}: {e}"},
+            "call": f"{last_h.filename}:{last_h.lineno} {last_h.line}",
+            "raised_at": f"{inside[-1].filename}:{inside[-1].lineno} {inside[-1].line}",
+            "traceback": _tb.format_exc()[-3000:], "proof_broken": proof_broken,
+            "note": "the harness builds its scenarios through the package's public constructors / factories; on this tree that call raises"})
+        print(f"VIOLATION property={pid} replay={path}")
+        return 1
     try:
         records = run_cases(P, cases, driver)
     except Exception:
